@@ -367,6 +367,41 @@ def purity(case, ctx):
               f'returned {sorted(rc[1].keys())}, expected '
               f'{sorted(expect_keys)}')
 
+    # the functional core's own `flags` argument: a caller-held mapping is
+    # an input like any other (never written), the scope sees its entries,
+    # 'initializing' is set during init only, and reusing the same mapping
+    # for init, apply, init again gives the same results every time
+    flag_form = case['seed'] % 3
+    flags = [None, {}, {'tag': case['seed']}][flag_form]
+    s_flags = snap(flags)
+    seen = []
+
+    def flag_fn(scope, xx):
+      seen.append((scope.get_flag('initializing', None),
+                   scope.get_flag('tag', None)))
+      return core_fn(scope, xx)
+    rngs_c = rngs if isinstance(rngs, dict) else {'params': rngs}
+    with sut('flax.core.init(flags=...)'):
+      yi, vi = fcore.init(flag_fn, flags=flags)(rngs_c, x)
+    require(snap(flags) == s_flags, lambda: 'flax.core.init changed the '
+            f'caller\'s flags mapping to {flags!r}')
+    with sut('flax.core.apply(flags=...)'):
+      rc2 = fcore.apply(flag_fn, mutable=mutable, flags=flags)(variables, x)
+    require(snap(flags) == s_flags, lambda: 'flax.core.apply changed the '
+            f'caller\'s flags mapping to {flags!r}')
+    with sut('flax.core.init(flags=...) again'):
+      yi2, vi2 = fcore.init(flag_fn, flags=flags)(rngs_c, x)
+    tag = case['seed'] if flag_form == 2 else None
+    require(seen == [(True, tag), (None, tag), (True, tag)], lambda: 'flags '
+            f'seen by the scope during init, apply, init: {seen} (caller '
+            f'passed {flags!r})')
+    require(out_eq(yi, yi2) and tree_eq(vi, vi2), 'flax.core.init with the '
+            'same flags mapping is not deterministic')
+    require(out_eq(rc2 if mutable is False else rc2[0], y_ref),
+            'flax.core.apply(flags=...) output differs from Module.apply')
+    require(snap(variables) == s_var and snap(x) == s_x,
+            'flax.core.init/apply with flags changed its inputs')
+
   stateful = bool(state_cols) or L.uses(case['prog'], ('sow',), case)
   shared_or_recalled = bool(case.get('shared')) or any(
       op.get('calls', 1) > 1 for op in L.collect(case['prog'], 'sub', case)) \
